@@ -603,6 +603,9 @@ func (kc *kernelCtx) hooks(b *Block, ts *TypeSpec, recv string, inline map[strin
 		ls.NoExit = lb.first("noexit") != nil
 		for _, c := range lb.all("iteration") {
 			w, r := splitWord(c.Text)
+			if w == "ensures" {
+				ls.IterEnsures = append(ls.IterEnsures, r)
+			}
 			if w == "emits" {
 				ls.IterEmits = append(ls.IterEmits, splitTop(r, ",")...)
 				if strings.TrimSpace(r) == "" {
@@ -611,6 +614,19 @@ func (kc *kernelCtx) hooks(b *Block, ts *TypeSpec, recv string, inline map[strin
 			}
 		}
 		return ls
+	}
+	h.IterEnsures = func(x *Exec, st *State, ls *LoopSpec, evs []Event) []string {
+		env := mkEnv(st, nil)
+		env.Events = evs
+		var out []string
+		for _, e := range ls.IterEnsures {
+			g, err := env.evalBool(e)
+			if err != nil {
+				g = "false"
+			}
+			out = append(out, g)
+		}
+		return out
 	}
 	h.MatchIter = func(x *Exec, st *State, ls *LoopSpec, evs []Event) string {
 		env := mkEnv(st, nil)
